@@ -108,3 +108,24 @@ func init() {
 		ruleConstants(p, r, bc, map[string]string{"vbTopBits": "536870912", "vbTopMask": "3758096384", "vbNumBits": "29"}, "BIP9")
 	})
 }
+
+func init() {
+	bc := btcd + "/blockchain"
+	extra("C15", func(p *Program, r *Report) {
+		ruleFieldOrderPairs(p, r, []codecPair{
+			{bc + ".putSpentTxOut", bc + ".decodeSpentTxOut", "SpentTxOut"},
+		})
+	})
+	extra("C05", func(p *Program, r *Report) {
+		ff := btcd + "/database/ffldb"
+		ruleFieldOrderPairs(p, r, []codecPair{{ff + ".serializeBlockLoc", ff + ".deserializeBlockLoc", "blockLocation"}})
+	})
+	extra("C08", func(p *Program, r *Report) {
+		ruleFieldOrderPairs(p, r, []codecPair{
+			{wirePkg + ".writeBlockHeaderBuf", wirePkg + ".readBlockHeaderBuf", "BlockHeader"},
+			{wirePkg + ".writeNetAddressBuf", wirePkg + ".readNetAddressBuf", "NetAddress"},
+			{wirePkg + ".writeTxInBuf", wirePkg + ".readTxInBuf", "TxIn"},
+			{wirePkg + ".WriteTxOutBuf", wirePkg + ".readTxOutBuf", "TxOut"},
+		})
+	})
+}
